@@ -17,8 +17,8 @@ CLAIMED = {
             "own HTTP/1 parser and hyperframe/hpack based HTTP/2 peer are trusted; applications declare a correct content-length or none"),
     "C03": ("5/C03", "Seeded search over closing orders (client FIN/RST/close at any byte, failing writes, keep-alive expiry, "
             "Connection: close, shutdown trigger) x application shapes (early, late, continuing after disconnect) with an "
-            "automaton over everything delivered to each instance, send outcomes and access-log counts. Two genuine defects are "
-            "recorded as known findings (F06, F07).",
+            "automaton over everything delivered to each instance, send outcomes and access-log counts; every fourth run is a "
+            "WebSocket session over either carrier. One defect (what remains of F06, HTTP/2 only) is a known finding.",
             "instances already finished at closure, instances killed by the forced cancel at shutdown, and HTTP/1 instances whose reader is parked behind pipelined bytes are not owed a disconnect"),
     "C06": ("5/C06", "Seeded search over HTTP/1.x pipelines (1..5 requests, bodies, Connection headers, request maximum, "
             "malformed request at any position, every segmentation mode) x application read/answer orders, judged against a "
